@@ -40,6 +40,7 @@ def strategy(tier):
     seeds = st.lists(st.one_of(st.integers(0, 50), st.integers()), min_size=1, max_size=3)
     return st.fixed_dictionaries({
         "prog": prog, "seeds": seeds, "n_initial": st.integers(0, 2), "reuse_streams": st.booleans(),
+        "long_lived_producers": st.sampled_from([False, False, False, False, True]),
         "prior": st.fixed_dictionaries({
             "kind": st.sampled_from(PRIORS), "k": st.integers(1, 12), "seeds": seeds, "same_seeds": st.booleans(),
             "other_rep": st.booleans(), "frac": st.integers(1, 9)}),
@@ -53,9 +54,9 @@ def _add_initial(h, n):
         h.sim.add_initial_method(h.model, "initial", idx=i)
 
 
-def _fresh_run(prog, seeds, n_initial=0, reuse=False):
+def _fresh_run(prog, seeds, n_initial=0, reuse=False, llp=False):
     h = Harness(prog)
-    stoch.install(h.model, seeds, reuse_streams=reuse)
+    stoch.install(h.model, seeds, reuse_streams=reuse, long_lived_producers=llp)
     _add_initial(h, n_initial)
     try:
         h.initialize()
@@ -96,7 +97,10 @@ def run_case(case):
         out.label("initial-methods")
     if reuse:
         out.label("streams-reused")
-    want, want_init, leaked = _fresh_run(prog, case["seeds"], n_init, reuse)
+    llp = bool(case.get("long_lived_producers"))
+    if llp:
+        out.label("long-lived-producers")
+    want, want_init, leaked = _fresh_run(prog, case["seeds"], n_init, reuse, llp)
     if leaked:
         out.fail("thread-leak", "fresh run")
 
@@ -104,7 +108,7 @@ def run_case(case):
     prior_seeds = case["seeds"] if pr.get("same_seeds") else pr["seeds"]
     if pr.get("same_seeds"):
         out.label("prior-same-seeds")
-    stoch.install(h.model, prior_seeds, reuse_streams=reuse)
+    stoch.install(h.model, prior_seeds, reuse_streams=reuse, long_lived_producers=llp)
     _add_initial(h, n_init)
     left_pending = left_stats = False
     try:
@@ -141,7 +145,11 @@ def run_case(case):
         try:
             h.initialize()
         except Exception as e:
-            out.fail("second-initialize-raised-" + type(e).__name__, {"prior": kind, "err": repr(e)})
+            if llp and isinstance(e, ValueError) and "timestamp" in str(e):
+                # (K-C06-1: a stale persistent of the previous replication rejects an earlier timestamp)
+                out.fail("second-replication-differs:long-lived-producers", {"prior": kind, "err": repr(e)})
+            else:
+                out.fail("second-initialize-raised-" + type(e).__name__, {"prior": kind, "err": repr(e)})
             return out
         got_init = (enc_obs(h.sim.simulator_time), h.sim.eventlist().size())
         if got_init != want_init:
@@ -184,10 +192,17 @@ def run_case(case):
     if want["reinit_log"] and not out.disc:
         out.label("reinit-attempted")
         p2 = _strip_reinit(prog)
-        w2, _, _ = _fresh_run(p2, case["seeds"], n_init, reuse)
+        w2, _, _ = _fresh_run(p2, case["seeds"], n_init, reuse, llp)
         for key in ("trace", "clock", "state", "draws", "notifications", "stats"):
             if w2.get(key) != want.get(key):
                 out.fail("reinit-attempt-changed-" + key, {"len": [len(str(w2.get(key))), len(str(want.get(key)))]})
+    if llp and out.disc and pr["kind"] != "none":
+        # data producers that outlive the replication keep the statistics of the previous replication subscribed
+        # (known finding K-C06-1): report this sub-domain under ONE specific kind
+        kinds = sorted({d["kind"] for d in out.disc})
+        if all(k.startswith(("second-replication-", "warmup-more", "initialize-while-running")) for k in kinds):
+            del out.disc[:]
+            out.fail("second-replication-differs:long-lived-producers", {"prior": pr["kind"], "kinds": kinds})
     out.nontrivial = (left_pending and left_stats) or pr["kind"] in ("fault", "pause") and left_pending
     out.info = {"executed": len(want["trace"]), "prior": pr["kind"]}
     return out
